@@ -27,7 +27,8 @@ TECHNIQUE = "runtime monitoring: reference timer-set model (exact rational times
 RULE = ("random histories (families generic / in-call bodies / large bursts, with schedule-and-cancel pairs) of up to ~260 operations over <= 60 (burst: 90) "
         "calls with dyadic times on task.Clock; plus exhaustive histories (quick depth 4, thorough depth 5) over 3 calls, "
         "delays {0,1,2}, advances {0,1,2} with in-call bodies.  Distinct = history; non-trivial = at least one call ran and "
-        "at least one cancel/reset/delay took effect or a call was scheduled from inside a call.")
+        "at least one cancel/reset/delay took effect or a call was scheduled from inside a call.  Calls raise in a share "
+        "of the histories (Clock.advance then ends early); the raising body joins the exhaustive enumeration in thorough only.")
 ASSUMPTIONS = ["trusted base: the reference timer set in vf/engines/timermodel.py",
                "all times are multiples of 1/16 s so the implementation's float arithmetic is exact"]
 SHARDS = {"quick": 4, "thorough": 16}
